@@ -64,6 +64,7 @@ func verifPool(lb *LoadBalancer, strategy, n int, arbHealth bool) []*Backend {
 		switch strategy {
 		case 1:
 			b.ActiveConnections = int32(verifrt.IntRange("gauge", 0, 1<<30))
+			b.Weight = verifrt.IntRange("weight", 0, 3) // least_connections must not look at weights
 		case 2:
 			b.Weight = verifrt.IntRange("weight", 1, 1<<10)
 		}
@@ -206,6 +207,11 @@ func verifInterims() int {
 		return 0
 	}
 	return verifrt.Choice("backendInterims", 3)
+}
+
+// verifInterimStatus: which informational status an interim response carries (any 1xx but 101 is relayed alike).
+func verifInterimStatus() int {
+	return []int{http.StatusEarlyHints, http.StatusContinue, http.StatusProcessing}[verifrt.Choice("interimStatus", 3)]
 }
 
 // harness-owned shared state is guarded by its own mutex so that concurrent
